@@ -374,6 +374,8 @@ def _capture():
         finally:
             scope_utils.find_all = real_find_all
         if not exprs:
+            if name not in ("Python", "JavaScript", "TypeScript", "Java", "C", "C++", "C#"):
+                continue  # a language registered beyond the property's seven without a header pattern: nothing to run
             raise core.HarnessError(f"seam scope_utils.find_all never hit for language {name}")
         captured[name] = exprs
     return captured
